@@ -1129,15 +1129,21 @@ func (t *Table) MergeCellsRange(startRow, endRow, startCol, endCol int) error {
 		return fmt.Errorf("行索引范围无效：[%d, %d]", startRow, endRow)
 	}
 
+	// 区域合并由多步组成（逐行水平合并，再垂直合并）；任何一步失败时，
+	// 之前各步已经做出的修改必须撤销，使表格保持调用前的状态
+	backup := t.CopyTable()
+
 	// 先水平合并每一行
 	for i := startRow; i <= endRow; i++ {
 		if startCol >= len(t.Rows[i].Cells) || endCol >= len(t.Rows[i].Cells) {
+			t.Rows = backup.Rows
 			return fmt.Errorf("第%d行列索引范围无效：[%d, %d]", i, startCol, endCol)
 		}
 
 		if startCol != endCol {
 			err := t.MergeCellsHorizontal(i, startCol, endCol)
 			if err != nil {
+				t.Rows = backup.Rows
 				return fmt.Errorf("水平合并第%d行失败：%v", i, err)
 			}
 		}
@@ -1147,6 +1153,7 @@ func (t *Table) MergeCellsRange(startRow, endRow, startCol, endCol int) error {
 	if startRow != endRow {
 		err := t.MergeCellsVertical(startRow, endRow, startCol)
 		if err != nil {
+			t.Rows = backup.Rows
 			return fmt.Errorf("垂直合并失败：%v", err)
 		}
 	}
